@@ -965,7 +965,7 @@ theorem sopInterleavedAB_ok {c : MontCfg} {pv : Nat} (h : CfgOK c pv) {as bs : L
 
 /-! ### `sumList`, `sopNaive` -/
 
-theorem zeros_elem {c : MontCfg} {pv : Nat} (h : CfgOK c pv) : Elem c pv (zeros c.n) := by
+theorem sop_zeros_elem {c : MontCfg} {pv : Nat} (h : CfgOK c pv) : Elem c pv (zeros c.n) := by
   have hz0 : value (zeros c.n) = 0 := by unfold zeros; exact value_replicate_zero _
   exact ⟨(zeros_limbs c).len, (zeros_limbs c).wf, by rw [hz0]; have := h.p_gt; omega⟩
 
@@ -998,7 +998,7 @@ theorem sumList_ok {c : MontCfg} {pv : Nat} (h : CfgOK c pv) {α : Type} (f : α
     (X : α → Nat) (L : List α) (hL : ∀ t ∈ L, SopOK c pv (f t) (X t)) :
     SopOK c pv (sumList c (L.map f)) (L.map X).sum := by
   have hz : SopOK c pv (zeros c.n) 0 := by
-    refine ⟨zeros_elem h, ?_⟩
+    refine ⟨sop_zeros_elem h, ?_⟩
     have hz0 : value (zeros c.n) = 0 := by unfold zeros; exact value_replicate_zero _
     rw [hz0]; simp
   have := sumList_fold h f X L (zeros c.n) 0 hL hz
